@@ -51,12 +51,16 @@ def integerOrEnumConst (cs : Chars) : Option ((FieldType × Scalar) × Chars) :=
     let (c, r) ← constName r
     some ((.named t, .str c), r)
 
+/-- the value of a condition: `CONST_PROPERTY_NAME` is tried first, then a number -/
+def conditionValue (r : Chars) : Option (Scalar × Chars) :=
+  match constName r with
+  | some (c, r) => some (Scalar.str c, r)
+  | none => (number r).map fun (n, r) => (Scalar.int n, r)
+
 /-- `conditional_expression: "if" (_dec_or_hex_number | CONST_PROPERTY_NAME) CONDITIONAL_OPERATION PROPERTY_NAME` -/
 def conditionalExpression (cs : Chars) : Option (Conditional × Chars) := do
   let r ← lit "if" cs
-  let (v, r) ← match constName r with
-    | some (c, r) => some (Scalar.str c, r)
-    | none => (number r).map fun (n, r) => (Scalar.int n, r)
+  let (v, r) ← conditionValue r
   let (op, r) ← conditionalOperation r
   let (p, r) ← propertyName r
   some (⟨v, op, p⟩, r)
@@ -69,19 +73,27 @@ def optConditionalEol (cs : Chars) : Option FieldValue :=
     | some (c, r) => if atEol r then some (.cond c) else none
     | none => none
 
+/-- element type of an array: `FIXED_SIZE_INTEGER | USER_TYPE_NAME` -/
+def scanElem (r : Chars) : Option (ElemType × Chars) :=
+  match fixedSizeInteger r with
+  | some (t, r) => some (ElemType.int (mkInt t), r)
+  | none => (userTypeName r).map fun (n, r) => (ElemType.named n, r)
+
+/-- size of an array: `PROPERTY_NAME | _dec_or_hex_number | ARRAY_SIZE_FILL_PLACEHOLDER` -/
+def scanSize (r : Chars) : Option (Scalar × Chars) :=
+  match propertyName r with
+  | some (p, r) => some (Scalar.str p, r)
+  | none =>
+    match number r with
+    | some (n, r) => some (Scalar.int n, r)
+    | none => (lit fillPlaceholder r).map fun r => (Scalar.str fillPlaceholder, r)
+
 /-- `array_expression` after the keyword `array` -/
 def arrayArguments (cs : Chars) : Option (ArrayType × Chars) := do
   let r ← lit "(" cs
-  let (et, r) ← match fixedSizeInteger r with
-    | some (t, r) => some (ElemType.int (mkInt t), r)
-    | none => (userTypeName r).map fun (n, r) => (ElemType.named n, r)
+  let (et, r) ← scanElem r
   let r ← lit "," r
-  let (size, r) ← match propertyName r with
-    | some (p, r) => some (Scalar.str p, r)
-    | none =>
-      match number r with
-      | some (n, r) => some (Scalar.int n, r)
-      | none => (lit fillPlaceholder r).map fun r => (Scalar.str fillPlaceholder, r)
+  let (size, r) ← scanSize r
   let r ← lit ")" r
   some (⟨et, size, {}⟩, r)
 
@@ -337,69 +349,78 @@ inductive StructLine where
   | member (m : Member)
   deriving DecidableEq, Repr, Inhabited
 
+/-- `struct_field_const` after the constant's name: `"=" "make_const" "(" _integer_or_enum_const ")" _NL` -/
+def constMemberRest (n : String) (r : Chars) : Option StructLine := do
+  let r ← lit "=" r
+  let r ← lit "make_const" r
+  let r ← lit "(" r
+  let ((t, v), r) ← integerOrEnumConst r
+  let r ← lit ")" r
+  if atEol r then some (.member (.field { name := n, fieldType := t, value := .scalar v, disposition := some "const" })) else none
+
+/-- a member line after `name =` (no attribute lines before it): `make_reserved(…)`, `sizeof(…)`, `inline T`, or a
+    plain field -/
+def memberAfterEquals (n : String) (r : Chars) : Option StructLine :=
+  match lit "make_reserved" r with
+  | some r => do
+    let r ← lit "(" r
+    let ((t, v), r) ← integerOrEnumConst r
+    let r ← lit ")" r
+    if atEol r then some (.member (.field { name := n, fieldType := t, value := .scalar v, disposition := some "reserved" })) else none
+  | none =>
+  match lit "sizeof" r with
+  | some r => do
+    let r ← lit "(" r
+    let (t, r) ← fixedSizeInteger r
+    let r ← lit "," r
+    let (p, r) ← propertyName r
+    let r ← lit ")" r
+    if atEol r then
+      some (.member (.field { name := n, fieldType := .int (mkInt t), value := .scalar (.str p), disposition := some "sizeof" }))
+    else none
+  | none =>
+  match lit "inline" r with
+  | some r => do
+    let (t, r) ← userTypeName r
+    if atEol r then some (.member (.field { name := n, fieldType := .named t, disposition := some "inline" })) else none
+  | none => (plainFieldRest n r).map fun f => .member (.field f)
+
+/-- `struct_inline: "inline" USER_TYPE_NAME _NL` after the keyword -/
+def unnamedInlineRest (r : Chars) : Option StructLine := do
+  let (t, r) ← userTypeName r
+  if atEol r then some (.member (.inlinePlaceholder t none)) else none
+
+/-- a plain field after its name: `"=" type [condition] _NL` -/
+def plainMemberRest (n : String) (r : Chars) : Option StructLine := do
+  let r ← lit "=" r
+  (plainFieldRest n r).map fun f => .member (.field f)
+
 /-- one code line of a struct body. Without preceding attribute lines lark tries `CONST_PROPERTY_NAME`,
     `PROPERTY_NAME` (retagged to the keyword `inline` when it is exactly that), `__value__`, `@`; after attribute
     lines only a plain field (`PROPERTY_NAME` without retagging, or `__value__`) or another attribute. -/
 def parseStructLine (afterAttrs : Bool) (cs : Chars) : Option StructLine :=
   if afterAttrs then
     match propertyName cs with
-    | some (n, r) => do
-      let r ← lit "=" r
-      (plainFieldRest n r).map fun f => .member (.field f)
+    | some (n, r) => plainMemberRest n r
     | none =>
     match lit "__value__" cs with
-    | some r => do
-      let r ← lit "=" r
-      (plainFieldRest "__value__" r).map fun f => .member (.field f)
+    | some r => plainMemberRest "__value__" r
     | none => do
       let r ← lit "@" cs
       (fieldAttribute r).map .attr
   else
     match constName cs with
-    | some (n, r) => do
-      let r ← lit "=" r
-      let r ← lit "make_const" r
-      let r ← lit "(" r
-      let ((t, v), r) ← integerOrEnumConst r
-      let r ← lit ")" r
-      if atEol r then some (.member (.field { name := n, fieldType := t, value := .scalar v, disposition := some "const" })) else none
+    | some (n, r) => constMemberRest n r
     | none =>
     match propertyName cs with
     | some (n, r) =>
-      if n = "inline" then do
-        -- `struct_inline: "inline" USER_TYPE_NAME _NL`
-        let (t, r) ← userTypeName r
-        if atEol r then some (.member (.inlinePlaceholder t none)) else none
+      if n = "inline" then unnamedInlineRest r
       else do
         let r ← lit "=" r
-        match lit "make_reserved" r with
-        | some r => do
-          let r ← lit "(" r
-          let ((t, v), r) ← integerOrEnumConst r
-          let r ← lit ")" r
-          if atEol r then some (.member (.field { name := n, fieldType := t, value := .scalar v, disposition := some "reserved" })) else none
-        | none =>
-        match lit "sizeof" r with
-        | some r => do
-          let r ← lit "(" r
-          let (t, r) ← fixedSizeInteger r
-          let r ← lit "," r
-          let (p, r) ← propertyName r
-          let r ← lit ")" r
-          if atEol r then
-            some (.member (.field { name := n, fieldType := .int (mkInt t), value := .scalar (.str p), disposition := some "sizeof" }))
-          else none
-        | none =>
-        match lit "inline" r with
-        | some r => do
-          let (t, r) ← userTypeName r
-          if atEol r then some (.member (.field { name := n, fieldType := .named t, disposition := some "inline" })) else none
-        | none => (plainFieldRest n r).map fun f => .member (.field f)
+        memberAfterEquals n r
     | none =>
     match lit "__value__" cs with
-    | some r => do
-      let r ← lit "=" r
-      (plainFieldRest "__value__" r).map fun f => .member (.field f)
+    | some r => plainMemberRest "__value__" r
     | none => do
       let r ← lit "@" cs
       (fieldAttribute r).map .attr
